@@ -31,7 +31,91 @@ class _Desugar(ast.NodeTransformer):
             return self._loc(ast.If(test=v.test, body=[a] if not isinstance(a, list) else a, orelse=[b] if not isinstance(b, list) else b), n)
         return n
 
+    # -- named conditions:  t = A and not B ; ... if t:   is the same decision as   if A and not B:
+    #    A local that holds a truth value is split where it is computed (if E: t = True else: t = False), so that the CFG
+    #    decomposes E into path facts there and constant propagation decides the later `if t:`.  Exact when E is
+    #    bool-valued by construction (comparisons, not, and/or of those, bool()/isinstance()/...); for other and/or
+    #    expressions only when every read of t in the function is in a truth-value position.
+    _BOOL_CALLS = ('bool', 'isinstance', 'issubclass', 'callable', 'hasattr', 'any', 'all')
+    _BOOL_METHODS = ('startswith', 'endswith', 'isdigit', 'isalnum', 'isalpha', 'isspace', 'is_set', 'isupper', 'islower')
+
+    def _bool_valued(self, e: ast.AST) -> bool:
+        if isinstance(e, ast.Compare):
+            return True
+        if isinstance(e, ast.UnaryOp) and isinstance(e.op, ast.Not):
+            return True
+        if isinstance(e, ast.BoolOp):
+            return all(self._bool_valued(v) for v in e.values)
+        if isinstance(e, ast.Constant) and isinstance(e.value, bool):
+            return True
+        if isinstance(e, ast.Call):
+            if isinstance(e.func, ast.Name) and e.func.id in self._BOOL_CALLS:
+                return True
+            if isinstance(e.func, ast.Attribute) and e.func.attr in self._BOOL_METHODS:
+                return True
+        return False
+
+    def _truth_only_names(self, fn: ast.AST) -> set:
+        """locals every read of which is in a truth-value position (if/while/assert test, operand of not/and/or in such a test, conditional-expression test)"""
+        truth_ids = set()
+
+        def mark(e: ast.AST) -> None:
+            if isinstance(e, ast.Name):
+                truth_ids.add(id(e))
+            elif isinstance(e, ast.UnaryOp) and isinstance(e.op, ast.Not):
+                mark(e.operand)
+            elif isinstance(e, ast.BoolOp):
+                for v in e.values:
+                    mark(v)
+        for x in ast.walk(fn):
+            if isinstance(x, (ast.If, ast.While, ast.IfExp, ast.Assert)):
+                mark(x.test)
+            elif isinstance(x, ast.comprehension):
+                for t in x.ifs:
+                    mark(t)
+        loads: Dict[str, List[int]] = {}
+        for x in ast.walk(fn):
+            if isinstance(x, ast.Name) and isinstance(x.ctx, ast.Load):
+                loads.setdefault(x.id, []).append(id(x))
+        return {nm for nm, ids in loads.items() if all(i in truth_ids for i in ids)}
+
+    def _split_named_condition(self, target: ast.Name, value: ast.AST, at: ast.AST) -> Optional[ast.AST]:
+        exact = False
+        while isinstance(value, ast.Call) and isinstance(value.func, ast.Name) and value.func.id == 'bool' and len(value.args) == 1 and not value.keywords:
+            value, exact = value.args[0], True          # bool(E): the truth value of E, by definition
+        if not isinstance(value, (ast.BoolOp, ast.Compare)) and not (isinstance(value, ast.UnaryOp) and isinstance(value.op, ast.Not)):
+            return None
+        if any(isinstance(x, (ast.NamedExpr, ast.Await, ast.Yield, ast.YieldFrom, ast.Lambda)) for x in ast.walk(value)):
+            return None
+        if not (exact or self._bool_valued(value) or target.id in self._truth_only[-1]):
+            return None
+        t = ast.copy_location(ast.Assign(targets=[ast.Name(id=target.id, ctx=ast.Store())], value=ast.Constant(value=True), type_comment=None), at)
+        f = ast.copy_location(ast.Assign(targets=[ast.Name(id=target.id, ctx=ast.Store())], value=ast.Constant(value=False), type_comment=None), at)
+        return self._loc(ast.If(test=value, body=[t], orelse=[f]), at)
+
+    _truth_only: List[set] = [set()]
+
+    def visit_FunctionDef(self, n: ast.FunctionDef) -> ast.AST:
+        self._truth_only = self._truth_only + [self._truth_only_names(n)]
+        try:
+            self.generic_visit(n)
+        finally:
+            self._truth_only = self._truth_only[:-1]
+        return n
+
+    def visit_AsyncFunctionDef(self, n: ast.AsyncFunctionDef) -> ast.AST:
+        self._truth_only = self._truth_only + [self._truth_only_names(n)]
+        try:
+            self.generic_visit(n)
+        finally:
+            self._truth_only = self._truth_only[:-1]
+        return n
+
     def visit_Assign(self, n: ast.Assign) -> ast.AST:
+        if len(n.targets) == 1 and isinstance(n.targets[0], ast.Name) and len(self._truth_only) > 1:
+            r = self._split_named_condition(n.targets[0], n.value, n)
+            if r is not None:
+                return r
         if isinstance(n.value, ast.IfExp) and len(n.targets) == 1 and isinstance(n.targets[0], (ast.Name, ast.Attribute, ast.Subscript)):
             v = n.value
             a = self.visit_Assign(ast.copy_location(ast.Assign(targets=n.targets, value=v.body, type_comment=None), v.body))
@@ -40,6 +124,10 @@ class _Desugar(ast.NodeTransformer):
         return n
 
     def visit_AnnAssign(self, n: ast.AnnAssign) -> ast.AST:
+        if n.value is not None and isinstance(n.target, ast.Name) and len(self._truth_only) > 1:
+            r = self._split_named_condition(n.target, n.value, n)
+            if r is not None:
+                return r
         if n.value is not None and isinstance(n.value, ast.IfExp) and isinstance(n.target, (ast.Name, ast.Attribute)):
             v = n.value
             a = self.visit_Assign(ast.copy_location(ast.Assign(targets=[n.target], value=v.body, type_comment=None), v.body))
@@ -48,6 +136,165 @@ class _Desugar(ast.NodeTransformer):
         return n
 
     def visit_Lambda(self, n: ast.Lambda) -> ast.AST:
+        return n
+
+
+_FLIP = {ast.Eq: ast.Eq, ast.NotEq: ast.NotEq, ast.Is: ast.Is, ast.IsNot: ast.IsNot, ast.Lt: ast.Gt, ast.LtE: ast.GtE, ast.Gt: ast.Lt, ast.GtE: ast.LtE}
+_COMPLEMENT = {ast.Eq: ast.NotEq, ast.NotEq: ast.Eq, ast.Is: ast.IsNot, ast.IsNot: ast.Is, ast.In: ast.NotIn, ast.NotIn: ast.In}
+
+
+def _operand_rank(e: ast.AST) -> int:
+    """4 constant expression, 3 NAME_IN_CAPITALS (a constant by convention), 2 plain name / attribute chain, 1 anything else"""
+    if isinstance(e, ast.Constant):
+        return 4
+    if isinstance(e, (ast.BinOp, ast.UnaryOp, ast.Tuple, ast.List)) and all(isinstance(x, (ast.Constant, ast.BinOp, ast.UnaryOp, ast.Tuple, ast.List, ast.operator, ast.unaryop, ast.expr_context))
+                                                                            for x in ast.walk(e)):
+        return 4
+    x, last = e, None
+    while isinstance(x, ast.Attribute):
+        last = last or x.attr
+        x = x.value
+    if isinstance(x, ast.Name):
+        return 3 if (last or x.id).isupper() else 2
+    return 1
+
+
+class _Canon(ast.NodeTransformer):
+    """One spelling for constructs the language lets one write in several equivalent ways, applied at load time so that
+    no rule depends on which one the source uses (tools/syntax_variants.py replays each family on the whole tree):
+        K == X, K < X, ...             ->  X == K, X > K          (the more constant operand on the right; ties by text)
+        not (A is B) / not (A in B) / not (A == B)  ->  A is not B / A not in B / A != B
+        if bool(E): / while bool(E):   ->  if E: / while E:        (also under not / and / or of a test)
+        A if not T else B             ->  B if T else A;   A if X != K else B  ->  B if X == K else A  (also `is not`, `not in`)
+        N = N + K  (K a number)        ->  N += K
+        t = E ; if t: / return t      ->  if E: / return E        (t stored once, read once, adjacent statements)
+    Positions are kept; messages quote the canonical spelling."""
+
+    # -- a local computed only to be tested / returned by the very next statement is that statement's expression:
+    #        t = E ; if t: ...   ->  if E: ...          t = E ; return t  ->  return E        (also `if not t`, `if t and ...`)
+    #    exact when t is stored once and read once in the whole function and nothing is evaluated between the two.
+    def _inline_adjacent(self, body: List[ast.stmt], loads: Dict[str, int], stores: Dict[str, int]) -> List[ast.stmt]:
+        out: List[ast.stmt] = []
+        i = 0
+        while i < len(body):
+            s = body[i]
+            nxt = body[i + 1] if i + 1 < len(body) else None
+            tname = None
+            val = None
+            if isinstance(s, ast.Assign) and len(s.targets) == 1 and isinstance(s.targets[0], ast.Name):
+                tname, val = s.targets[0].id, s.value
+            elif isinstance(s, ast.AnnAssign) and isinstance(s.target, ast.Name) and s.value is not None:
+                tname, val = s.target.id, s.value
+            if tname is not None and nxt is not None and loads.get(tname) == 1 and stores.get(tname) == 1 and val is not None:
+                def is_t(e: Optional[ast.AST]) -> bool:
+                    return isinstance(e, ast.Name) and e.id == tname
+                done = False
+                if isinstance(nxt, ast.Return) and is_t(nxt.value):
+                    nxt.value = val
+                    done = True
+                elif isinstance(nxt, ast.If):
+                    t = nxt.test
+                    if is_t(t):
+                        nxt.test = self._truth(val)
+                        done = True
+                    elif isinstance(t, ast.UnaryOp) and isinstance(t.op, ast.Not) and is_t(t.operand):
+                        t.operand = val
+                        nxt.test = self.visit(t)
+                        done = True
+                    elif isinstance(t, ast.BoolOp) and is_t(t.values[0]):
+                        t.values[0] = val
+                        done = True
+                    elif isinstance(t, ast.BoolOp) and isinstance(t.values[0], ast.UnaryOp) and isinstance(t.values[0].op, ast.Not) and is_t(t.values[0].operand):
+                        t.values[0].operand = val
+                        t.values[0] = self.visit(t.values[0])
+                        done = True
+                if done:
+                    i += 1      # the assignment is dropped; the next statement is emitted by the next round
+                    continue
+            out.append(s)
+            i += 1
+        return out
+
+    def _blocks(self, n: ast.AST, loads: Dict[str, int], stores: Dict[str, int]) -> None:
+        for x in ast.walk(n):
+            for f in ('body', 'orelse', 'finalbody'):
+                b = getattr(x, f, None)
+                if isinstance(b, list) and b and isinstance(b[0], ast.stmt):
+                    setattr(x, f, self._inline_adjacent(b, loads, stores))
+
+    def _function(self, n: ast.AST) -> ast.AST:
+        self.generic_visit(n)
+        loads: Dict[str, int] = {}
+        stores: Dict[str, int] = {}
+        for x in ast.walk(n):
+            if isinstance(x, ast.Name):
+                d = loads if isinstance(x.ctx, ast.Load) else stores
+                d[x.id] = d.get(x.id, 0) + 1
+            elif isinstance(x, (ast.Global, ast.Nonlocal)):
+                for nm in x.names:
+                    stores[nm] = stores.get(nm, 0) + 2
+        self._blocks(n, loads, stores)
+        return n
+
+    def visit_FunctionDef(self, n: ast.FunctionDef) -> ast.AST:
+        return self._function(n)
+
+    def visit_AsyncFunctionDef(self, n: ast.AsyncFunctionDef) -> ast.AST:
+        return self._function(n)
+
+    def visit_Compare(self, n: ast.Compare) -> ast.AST:
+        self.generic_visit(n)
+        if len(n.ops) == 1 and type(n.ops[0]) in _FLIP:
+            l, r = n.left, n.comparators[0]
+            rl, rr = _operand_rank(l), _operand_rank(r)
+            if rl > rr or (rl == rr and ast.dump(l) != ast.dump(r) and ast.unparse(l) > ast.unparse(r)):
+                return ast.copy_location(ast.Compare(left=r, ops=[_FLIP[type(n.ops[0])]()], comparators=[l]), n)
+        return n
+
+    def visit_UnaryOp(self, n: ast.UnaryOp) -> ast.AST:
+        self.generic_visit(n)
+        if isinstance(n.op, ast.Not) and isinstance(n.operand, ast.Compare) and len(n.operand.ops) == 1 and type(n.operand.ops[0]) in _COMPLEMENT:
+            c = n.operand
+            return ast.copy_location(ast.Compare(left=c.left, ops=[_COMPLEMENT[type(c.ops[0])]()], comparators=c.comparators), n)
+        return n
+
+    def _truth(self, e: ast.AST) -> ast.AST:
+        """in a truth-value position bool(E) is E"""
+        if isinstance(e, ast.Call) and isinstance(e.func, ast.Name) and e.func.id == 'bool' and len(e.args) == 1 and not e.keywords and not isinstance(e.args[0], ast.Starred):
+            return self._truth(e.args[0])
+        if isinstance(e, ast.UnaryOp) and isinstance(e.op, ast.Not):
+            e.operand = self._truth(e.operand)
+            return self.visit_UnaryOp(e) if isinstance(e.operand, ast.Compare) else e
+        if isinstance(e, ast.BoolOp):
+            e.values = [self._truth(v) for v in e.values]
+        return e
+
+    def visit_If(self, n: ast.If) -> ast.AST:
+        self.generic_visit(n)
+        n.test = self._truth(n.test)
+        return n
+
+    def visit_While(self, n: ast.While) -> ast.AST:
+        self.generic_visit(n)
+        n.test = self._truth(n.test)
+        return n
+
+    def visit_IfExp(self, n: ast.IfExp) -> ast.AST:
+        self.generic_visit(n)
+        n.test = self._truth(n.test)
+        if isinstance(n.test, ast.UnaryOp) and isinstance(n.test.op, ast.Not):
+            return ast.copy_location(ast.IfExp(test=n.test.operand, body=n.orelse, orelse=n.body), n)
+        if isinstance(n.test, ast.Compare) and len(n.test.ops) == 1 and isinstance(n.test.ops[0], (ast.NotEq, ast.IsNot, ast.NotIn)):
+            t = ast.copy_location(ast.Compare(left=n.test.left, ops=[_COMPLEMENT[type(n.test.ops[0])]()], comparators=n.test.comparators), n.test)
+            return ast.copy_location(ast.IfExp(test=t, body=n.orelse, orelse=n.body), n)
+        return n
+
+    def visit_Assign(self, n: ast.Assign) -> ast.AST:
+        self.generic_visit(n)
+        if len(n.targets) == 1 and isinstance(n.targets[0], ast.Name) and isinstance(n.value, ast.BinOp) and isinstance(n.value.left, ast.Name) and \
+                n.value.left.id == n.targets[0].id and isinstance(n.value.right, ast.Constant) and isinstance(n.value.right.value, (int, float)) and \
+                not isinstance(n.value.right.value, bool):
+            return ast.copy_location(ast.AugAssign(target=n.targets[0], op=n.value.op, value=n.value.right), n)
         return n
 
 
@@ -177,7 +424,7 @@ class Program:
                     with open(path, 'r', encoding='utf-8') as f:
                         src = f.read()
                     tree = ast.parse(src, filename=path)
-                    tree = ast.fix_missing_locations(_Desugar().visit(tree))
+                    tree = ast.fix_missing_locations(_Desugar().visit(_Canon().visit(tree)))
                 except (SyntaxError, UnicodeDecodeError, OSError) as e:
                     raise AnalysisError('cannot parse %s: %s' % (rel, e))
                 self.modules[name] = Module(name, path, rel, src, tree, is_pkg)
